@@ -296,7 +296,21 @@ func mkResp(r *common.Rand, kind string, q feegen.Quote, outTotal uint64) respon
 func startTx(r *common.Rand, which int, q feegen.Quote) txgen.TxSpec {
 	s := txgen.TxSpec{Version: 1}
 	p := func() string { return common.Hex(feegen.P2PKH(feegen.Fill(r, 20))) }
-	switch which % 6 {
+	switch which % 8 {
+	case 6: // signed prior inputs whose unlocking scripts are shorter / longer than the 107-byte dummy: counted as they are
+		for _, l := range []int{106, 105, 72, 108}[:1+which/8%4] {
+			in := feegen.InCheap(r, uint64(500+l))
+			in.UnlockNil, in.Unlock = false, common.Hex(feegen.Fill(r, l))
+			s.Ins = append(s.Ins, in)
+		}
+		s.Outs = []txgen.OutSpec{{Sats: 3000, Script: p()}}
+	case 7: // amounts with bit 63 set on one side (the difference of outputs + fee and inputs does not fit an int64)
+		if which/8%2 == 0 {
+			s.Outs = []txgen.OutSpec{{Sats: 1 << 63, Script: p()}}
+		} else {
+			s.Ins = []txgen.InSpec{feegen.InCheap(r, 1<<63+1000)}
+			s.Outs = []txgen.OutSpec{{Sats: 700, Script: p()}}
+		}
 	case 0: // no inputs, one payment
 		s.Outs = []txgen.OutSpec{{Sats: 1000, Script: p()}}
 	case 1: // one small input, payment + data output
